@@ -645,6 +645,13 @@ def build(unit_dir, repo='/repo', mutate=None, auto_items=None, vacuity=False):
                 _count(counts, 'R12.pub')
                 return m.group(1) + 'pub ' + m.group(2)
             text = re.sub(r'(?m)^(\s+)(?!pub\b)([a-z_][a-z0-9_]*\s*:)', pubf, text)
+            # tuple structs: `struct X(T, U);` -> `struct X(pub T, pub U);`
+            mt = re.search(r'\bstruct\s+\w+(?:<[^>]*>)?\s*\((.*)\)\s*;\s*$', text, re.S)
+            if mt:
+                fields = rsx.split_args(mt.group(1))
+                newf = ', '.join(f if f.startswith('pub') else 'pub ' + f for f in fields)
+                text = text[:mt.start(1)] + newf + text[mt.end(1):]
+                _count(counts, 'R12.pub', len(fields))
         if pub_fields and kind in ('enum', 'struct', 'fn', 'const', 'type') and not re.match(r'\s*(#\[[^\]]*\]\s*)*pub\b', text):
             text = re.sub(r'^((?:\s*#\[[^\]]*\]\s*)*)', lambda m: m.group(1) + 'pub ', text, count=1)
             _count(counts, 'R12.pub')
